@@ -208,9 +208,12 @@ def p_c02(run):
     kernel_tie(run, ("native", "w32", "neutral") if run.tier == "quick" else ("native", "w32", "neutral", "neutral32"))
     run_scripts(run, G.gen_c02(run.rng, run.tier), std_variants(run, cfgs))
 def p_c03(run):
-    cfgs = ("native", "nosimd32") if run.tier == "quick" else ("native", "w32", "nosimd", "nosimd32", "neutral")
+    cfgs = ("native", "nosimd32", "noua") if run.tier == "quick" else ("native", "w32", "noua", "w32noua", "nosimd", "nosimd32", "neutral")
     vs = std_variants(run, cfgs)
     kernel_tie(run, ("native", "w32") if run.tier == "quick" else ("native", "w32", "neutral", "neutral32"))
+    import whole as W
+    if run.tier == "quick": whole_tie(run, ("native", "w32"), [p_ for p_ in W.QUICK_BLK if "dec" in p_])
+    else: whole_tie(run, ("native", "w32", "neutral", "neutral32"), [p_ for p_ in W.BLK_PARTS if "dec" in p_])
     for title, script, meta in G.gen_c03(run.rng, run.tier):
         for v in vs:
             for be in (("def", "v128", "v256") if v.has128 else ("def",)):
@@ -361,7 +364,8 @@ def p_c15(run):
     vs = [C.build_variant(run.work, "native", "gcc", "-O1", "asan")]
     if run.tier != "quick":
         vs += std_variants(run, ("native", "nosimd"))
-    for title, script in G.gen_c15(run.rng, run.tier):
+    # life cycles, and life cycles in which some initialisations fail for lack of memory (on objects with any prior content)
+    for title, script in G.gen_c15(run.rng, run.tier) + G.gen_c15(run.rng, run.tier, failalloc=True)[: (3 if run.tier == "quick" else 10**6)]:
         for v in vs:
             res = run.correspond(title, script, v)
             if res is not None:
